@@ -10,7 +10,7 @@ from spec import frames as F
 from spec import ppm as P
 
 LEVEL = "model_checking"
-RULE = ("every buffer = lead noise (offset 0..63) + frames (1, 2 or 3 from the alphabet) separated by gaps of "
+RULE = ("every buffer = lead noise (offset 0..199: every residue of the 200-sample estimator window) + frames (1, 2 or 3 from the alphabet) separated by gaps of "
         "{1 frame length, +1 sample, 3 frame lengths} + trailing noise, pulse amplitude per frame in {0.3,0.5,1.0,1.4}, "
         "noise peak in {0,-40,-20,-14.5,-13,-10.5,-10} dB relative to the weakest pulse x shape {const, alternating, LCG}; "
         "histories: sequences of 2 and 3 (4) such buffers through one reader object (state = remainder + running noise "
@@ -161,7 +161,9 @@ def gen(ctx):
     k = 0
     # single frames: all frames x all 64 offsets x all amplitudes x all noise
     for nm in FRAMES:
-        for off in range(64):
+        # every start residue modulo the 100 us (200-sample) window the noise estimator - and anything else that works
+        # window by window - is aligned to, not only the first 64
+        for off in range(200):
             for a in AMPS:
                 for db in NOISE_DB:
                     k += 1
